@@ -428,6 +428,12 @@ func (w *world) settle() bool {
 		if w.ctl.pendingWith(dialBudget) == 0 {
 			return true
 		}
+		if w.withheld && !w.closed {
+			// Part D: the connection is not ready yet and the explorer owns the dial budget (event DB): the send loop
+			// stays blocked in waitConnReady - with the entries of its batch selected but not yet written - across
+			// further events (time-outs, cancellations, submissions) until R (ready) or DB (budget elapsed).
+			return true
+		}
 		if round >= 16 {
 			return false
 		}
@@ -466,8 +472,15 @@ type world struct {
 	knownLeak     bool   // the known, unclaimed entry leak may have happened (see perform, event D)
 	acctReported  bool   // rule (c) was reported in this execution
 	starved       bool   // rule (a) of the healthy-store oracle was violated in this execution
-	acctChecks    int    // evaluations of the white-box accounting rule
-	sendChecks    int    // evaluations of rule (a)
+	// Part D: the store accepts the dial but the connection does not become ready before event R.
+	withheld    bool          // the connection is still withheld (R has not happened)
+	heldBefore  bool          // ... when the current event was performed
+	raceSite    bool          // X happened while the connection was withheld (see raceDependent in explore.go)
+	readyCh     chan struct{} // closed by R
+	dialExpired bool          // event DB happened: "connection did not become ready" is a cause that exists
+	heldAtStep  int           // (coverage) callers in flight, not written, while an event happened with the connection withheld
+	acctChecks  int           // evaluations of the white-box accounting rule
+	sendChecks  int           // evaluations of rule (a)
 }
 
 // maxExecWall: an execution normally takes 1-3 ms. The only wall-clock assumption of the check is
@@ -510,6 +523,10 @@ func newWorld(cfg Config) *world {
 	vctx.SetStarter(func(d time.Duration, fire func()) func() bool {
 		return ctl.StartTimer(d, func(time.Time) { fire() }).Stop
 	})
+	if cfg.Part == "D" {
+		w.withheld, w.readyCh = true, make(chan struct{})
+	}
+	ready := w.readyCh
 	w.lis = bufconn.Listen(32 << 10) // small: gRPC keeps a closed pipe alive for up to 10 s through its deadline timers
 	w.gs = grpc.NewServer()
 	tikvpb.RegisterTikvServer(w.gs, w.srv)
@@ -518,6 +535,15 @@ func newWorld(cfg Config) *world {
 	go func() { _ = gs.Serve(lis) }()
 	w.cli = client.NewRPCClient(client.WithGRPCDialOptions(
 		grpc.WithContextDialer(func(ctx context.Context, _ string) (net.Conn, error) {
+			if ready != nil {
+				// Part D: a store that accepts the connection but does not complete the handshake: gRPC stays in
+				// CONNECTING (a blocked goroutine, visible to the quiescence test) until the explorer's event R.
+				select {
+				case <-ready:
+				case <-ctx.Done():
+					return nil, ctx.Err()
+				}
+			}
 			c, err := lis.DialContext(ctx)
 			if err != nil {
 				return nil, err
